@@ -34,7 +34,7 @@ ANCHORS = [
                                      "Pipeline.topological_generations", "Pipeline.graph", "Pipeline.defaults",
                                      "Pipeline._autogen_mapspec_axes", "Pipeline.output_to_func", "Pipeline.drop",
                                      "Pipeline.replace", "Pipeline.update_defaults", "Pipeline.update_renames",
-                                     "Pipeline.run", "Pipeline.mapspec_names", "Pipeline.mapspecs",
+                                     "Pipeline.run", "Pipeline._validate_run_kwargs", "Pipeline.mapspec_names", "Pipeline.mapspecs",
                                      "Pipeline.sorted_functions"]),
     ("pipefunc/map/_prepare.py", ["prepare_run", "_validate_complete_inputs", "_validate_fixed_indices", "_check_parallel"]),
     ("pipefunc/map/_run_info.py", ["RunInfo.create", "RunInfo.__post_init__", "RunInfo.init_store", "RunInfo.storage_class",
@@ -67,7 +67,9 @@ RULE = ("every valid pipeline of harness/pipegen.py and every valid map request 
         "plus pipeline(output, **root_args) on the pipegen pipelines: complete, each keyword dropped, a surplus keyword "
         "(fresh name / another root argument); "
         "non-trivial = a mutated case or a base with >= 2 functions; distinct by (kind, description, mode)")
-ASSUMPTIONS = ["mutate-then-use: update_from='current', overwrite only for update_bound, no update_scope / drop; renames that "
+ASSUMPTIONS = ["pipeline(...) level: Pipe.run_checked (C02's Model/Pipe.v) = Pipeline.run with the up-front keyword "
+               "validation; the order inside Pipeline.run is regenerated from the source (steps_run)",
+               "mutate-then-use: update_from='current', overwrite only for update_bound, no update_scope / drop; renames that "
                "make two parameters of one function equal are not generated",
                "pipeline(...) level: Model/Pipe.v (C02) is the model of Pipeline.run; missing/surplus keywords are judged "
                "with C02's specification (Pipe.eval fails / keyword names no parameter of a needed function)",
